@@ -41,16 +41,15 @@ macro_rules! get_one {
                         assert!(is_data_kind(kind), "get_exception_value_returned_as_data");
                         assert!(expected_leaf_matches(kind, c, &l), "get_value_as_encoded");
                     }
-                    kani::cover!(true, "delivered");
                 }
                 Err(e) => {
                     assert!(!is_data_kind(kind) && kind != K_NULL, "get_data_value_raised");
                     assert!(e.is::<PyNoSuchInstance>(), "get_exception_value_is_nosuchinstance");
                     assert!(e.is_instance_of::<PySnmpError>(), "nosuchinstance_is_snmperror");
-                    kani::cover!(true, "raised");
                 }
             }
             assert!(model_ok(), "model_bound");
+            kani::cover!(true, "completed");
             core::mem::forget(r);
             core::mem::forget(pdu);
         }
